@@ -10,7 +10,7 @@ import zlib
 
 import py7zr
 
-from harness import arch
+from harness import arch, hdr
 from harness.sandbox import run_sandboxed
 from ref import refreader, refwriter
 
@@ -74,9 +74,11 @@ def gen_layout(rng, members, feature=None):
     if feature == "packpos":
         lay["packpos"] = rng.choice([1, 7, 32])
     if feature == "no_substreams" and nd:
+        # SubStreamsInfo omitted: one member per folder; the CRCs are the folders' (all, every other one, or none)
         lay["folders"] = [[i] for i in range(nd)]
-        lay["coders"] = [rng.choice(["copy", "lzma2", "deflate"]) for _ in range(nd)]
+        lay["coders"] = [rng.choice(["copy", "lzma2", "deflate", "delta+lzma2", "bzip2>copy"]) for _ in range(nd)]
         lay["no_substreams"] = True
+        lay["crc"] = rng.choice(["folder", "folder", "none", "folder-partial"])
     if feature == "partial_crc":
         lay["crc"] = rng.choice(["partial", "partial", "folder-partial"])
         if nd >= 3 and rng.random() < 0.7:
@@ -233,13 +235,24 @@ def model_vs_impl(ctx, rep, data, members):
         if impl != mod:
             rep.violation("model/implementation disagree on the assignment of entries: impl %r model %r" % (impl, mod),
                           {"kind": "correspondence", "archive": data.hex()}, concrete=False, match_keys={"kind": "correspondence"})
+        # the header graph as _real_get_contents leaves it (the SubstreamsInfo object installed when the section is absent)
+        # against Assign.install_sub of the graph Header._read builds
+        st, parsed = hdr.impl_parse(raw)
+        if st == "ok":
+            want, got = model.call("install_sub", parsed), hdr.header_tree(z.header)
+            if want != got:
+                rep.violation("model/implementation disagree on the header graph after opening: impl %r model %r" % (got[0], want[0]),
+                              {"kind": "correspondence", "archive": data.hex()}, concrete=False, match_keys={"kind": "correspondence"})
+            rep.dist("graph_after_open", "SubStreamsInfo installed" if parsed[0] and parsed[0][0][2] == [] and got[0][0][2] != []
+                     else "as parsed")
         rep.extra["correspondence_cases"] = rep.extra.get("correspondence_cases", 0) + 1
     finally:
         z.close()
 
 
-# layout features py7zr is known to misread (zero_folder, partial_crc, multifolder_empty_between were repaired in /repo)
-PRIORITY = ["no_substreams", "dir_without_dir_attribute", "emptyfile_with_dir_attribute"]
+# layout features py7zr is known to misread (zero_folder, partial_crc, multifolder_empty_between and no_substreams were
+# repaired in /repo: a misreading of such a layout is an ordinary violation)
+PRIORITY = ["dir_without_dir_attribute", "emptyfile_with_dir_attribute"]
 FEATURES = [None, None, None, "packpos", "no_substreams", "partial_crc", "zero_folder", "partial_vectors"]
 
 
